@@ -160,6 +160,13 @@ def step_fresh(ctx):
         for e in new:
             if e not in explicit and not _isint(e):
                 out.append(("auto-id-type", f"{ctx.op}: automatic id {e!r} is not an integer", tags))
+        all_taken = bool(adds) and all(a != "a" and a[1] in prem for a in adds)
+        if all_taken and len(adds) > 1 and not ctx.out.raised:
+            if not ctx.out.warns:
+                out.append(("no-warning", f"{ctx.op}: every explicit ID already present but no warning was emitted", tags))
+            if not C.snap_equal(pre, post):
+                out.append(("refused-changed", f"{ctx.op}: every explicit ID was already taken, yet the network changed: "
+                            f"{C.snap_diff(pre, post)}", tags))
         if collided and len(adds) == 1 and not ctx.out.raised:
             if not ctx.out.warns:
                 out.append(("no-warning", f"{ctx.op}: explicit ID already present but no warning was emitted", tags))
